@@ -1,15 +1,71 @@
-(* C01 - signatures valid (placeholder until Sign proofs land). *)
-From Coq Require Import String.
+(* C01 - Every emitted signature is a valid RRSIG over exactly the published DNSKEY set.
+   RSA / ECDSA / SHA-2 are oracles: `verify` is the software verification the signer performs, the
+   independent validator (dnspython) is exercised by the correspondence harness. *)
+From Coq Require Import String Sorting.Permutation.
 From KV Require Import Base.Prelude Base.Exn Base.Bytes Model.Data Model.Wire Model.KsrPolicy Model.Token Model.Sign
-  Proofs.WireProofs.
+  Proofs.WireProofs Proofs.TokenProofs Proofs.SignProofs Proofs.Bridge15.
 
-Theorem C01_as_revoked_only_bit7 : forall k k',
-  as_revoked k = OK k' ->
-  k_flags k' = Z.lor (k_flags k) 128 /\
-  (forall i, i <> 7 -> Z.testbit (k_flags k') i = Z.testbit (k_flags k) i) /\
-  Z.testbit (k_flags k') 7 = true /\
-  k_id k' = k_id k /\ k_ttl k' = k_ttl k /\ k_proto k' = k_proto k /\ k_alg k' = k_alg k /\
-  k_pubtxt k' = k_pubtxt k /\ k_pub k' = k_pub k /\
-  calculate_key_tag k' = OK (k_tag k').
-Proof. exact as_revoked_only_bit7. Qed.
-Print Assumptions C01_as_revoked_only_bit7.
+(* lemmas proved inside a Section are generalised over the section's oracle variables even where unused:
+   instantiate the unused ones with dummies *)
+Definition dH : Z -> list Z -> list Z := fun _ _ => [].
+Definition dT : P11Key -> Z -> list Z -> res text := fun _ _ _ => Raise 0.
+Definition dV : text -> Z -> list Z -> text -> bool := fun _ _ _ _ => false.
+Definition dD : list Z -> text := fun _ => [].
+
+Theorem C01_signed_fields : forall H token_sign verify b keys sk ttl sn s,
+  sign_keys H token_sign verify b keys sk ttl sn = OK s ->
+  s_inc s = b_inc b /\ s_exp s = b_exp b /\ s_ttl s = ttl /\ s_ottl s = ttl /\ s_name s = dot /\ s_labels s = 0 /\
+  s_type s = TYPE_DNSKEY /\ s_alg s = k_alg (ck_dns sk) /\ s_id s = k_id (ck_dns sk) /\
+  (exists dk, kts_get (k_id (ck_dns sk)) keys = Some dk /\ s_tag s = k_tag dk) /\
+  Forall (fun k => k_ttl k = ttl) keys /\
+  exists raw pubtxt, make_raw_rrsig (mkSig (s_id s) ttl TYPE_DNSKEY (s_alg s) 0 ttl (b_exp b) (b_inc b) (s_tag s) sn [] []) keys = OK raw /\
+    pk_pub (ck_p11 sk) = Some pubtxt /\ verify pubtxt (s_alg s) raw (s_datatxt s) = true /\
+    sign_using_p11 H token_sign (ck_p11 sk) raw (s_alg s) = OK (s_datatxt s).
+Proof. exact (fun H ts v => signed_fields H ts v dD). Qed.
+Print Assumptions C01_signed_fields.
+
+(* every signature of every response bundle verifies over the RFC 4034 signature data of ALL keys published in that bundle *)
+Theorem C01_emitted_signatures_verify : forall H token_sign verify ds_hex i b schema ms ttl sn kks rb,
+  sign_bundle H token_sign verify ds_hex i b schema ms ttl sn kks true = OK rb ->
+  forall s, In s (b_sigs rb) ->
+    exists key tbs, In key (b_keys rb) /\ k_id key = s_id s /\ rfc4034_signature_data s (b_keys rb) tbs /\
+                    verify (k_pubtxt key) (k_alg key) tbs (s_datatxt s) = true.
+Proof.
+  intros H ts v dh i b sch ms ttl sn kks rb Hb.
+  exact (proj2 (proj2 (proj2 (proj2 (proj2 (proj2 (proj2 (response_bundle_facts H ts v dh i b sch ms ttl sn kks true rb Hb))))))) eq_refl).
+Qed.
+Print Assumptions C01_emitted_signatures_verify.
+
+Theorem C01_tbs_is_rfc4034 : forall s keys out, make_raw_rrsig s keys = OK out -> rfc4034_signature_data s keys out.
+Proof. exact make_raw_rrsig_is_rfc. Qed.
+Print Assumptions C01_tbs_is_rfc4034.
+
+Theorem C01_tbs_perm_invariant : forall s keys keys', Permutation keys keys' -> make_raw_rrsig s keys = make_raw_rrsig s keys'.
+Proof. exact tbs_perm_invariant. Qed.
+Print Assumptions C01_tbs_perm_invariant.
+
+(* what the token is asked to sign (raw RSA: full-modulus-length EMSA-PKCS1-v1_5 of the matching digest) *)
+Theorem C01_token_input_raw_rsa : forall H key data alg h oid r,
+  truthy (pk_hash_hsm key) = false -> digestinfo alg = Some (h, oid) -> pk_pub key <> None ->
+  rsa_decode (pk_pubraw key) = OK r ->
+  format_data_for_signing H key data alg = OK (CKM_RSA_X_509, emsa_pkcs1_v15 (rsa_bits r / 8) (oid ++ H h data)).
+Proof. exact token_input_raw_rsa. Qed.
+Print Assumptions C01_token_input_raw_rsa.
+
+Theorem C01_token_input_hash_on_token : forall H key data alg m,
+  truthy (pk_hash_hsm key) = true -> mech_hash_on_hsm alg = Some m -> m <> CKM_EDDSA ->
+  format_data_for_signing H key data alg = OK (m, data).
+Proof. exact token_input_hash_on_token. Qed.
+Print Assumptions C01_token_input_hash_on_token.
+
+Theorem C01_token_input_raw_ecdsa : forall H key data alg,
+  truthy (pk_hash_hsm key) = false -> alg = ECDSAP256SHA256 \/ alg = ECDSAP384SHA384 ->
+  format_data_for_signing H key data alg = OK (CKM_ECDSA, H (if alg =? ECDSAP256SHA256 then 256 else 384) data).
+Proof. exact token_input_raw_ecdsa. Qed.
+Print Assumptions C01_token_input_raw_ecdsa.
+
+Theorem C01_gen_mechanism_tables :
+  Gen.Hsm.mech_hash_on_hsm = table_of mech_hash_on_hsm /\ Gen.Hsm.mech_raw = table_of mech_raw /\
+  Gen.Hsm.mech_table_guard = "key.hash_using_hsm"%string.
+Proof. exact gen_mechanism_tables. Qed.
+Print Assumptions C01_gen_mechanism_tables.
